@@ -56,6 +56,13 @@ func (rc *Race) stack(b *bytes.Buffer, fr []Frame) {
 
 // Render prints the report the way tsan_report.cpp does for Go.
 func (rc *Race) Render() []byte {
+	out, _, _ := rc.RenderSpans()
+	return out
+}
+
+// RenderSpans also returns the offset just after each operation's stack and
+// just after each creation section's stack.
+func (rc *Race) RenderSpans() (out []byte, opEnd, createEnd []int) {
 	var b bytes.Buffer
 	eol := rc.EOL()
 	b.WriteString("==================" + eol)
@@ -77,6 +84,7 @@ func (rc *Race) Render() []byte {
 		}
 		fmt.Fprintf(&b, "%s at 0x%012x by goroutine %d:%s", kind, op.Addr, op.GID, eol)
 		rc.stack(&b, op.Frames)
+		opEnd = append(opEnd, b.Len())
 	}
 	for i := range rc.Creates {
 		c := &rc.Creates[i]
@@ -87,12 +95,13 @@ func (rc *Race) Render() []byte {
 		}
 		fmt.Fprintf(&b, "Goroutine %d (%s) created at:%s", c.GID, st, eol)
 		rc.stack(&b, c.Frames)
+		createEnd = append(createEnd, b.Len())
 	}
 	b.WriteString("==================")
 	if !rc.NoFinalEOL {
 		b.WriteString(eol)
 	}
-	return b.Bytes()
+	return b.Bytes(), opEnd, createEnd
 }
 
 func genRaceFrames(r *core.Rand, cfg *Cfg, n int, withArgs bool) []Frame {
